@@ -158,6 +158,11 @@ def extract_iter(
             except Exception as ex:
                 unwrapped = None
                 save_errors.append(ex)
+                if loops_since_progress > 100:
+                    # Whatever else is queued came out of the same runaway
+                    # unwrapping; we would only trip over it again and again
+                    # (without end, if each step produces several items)
+                    to_unwrap.clear()
             if unwrapped is None:
                 loops_since_progress = 0
                 to_elaborate.append((current, depth))
